@@ -516,4 +516,4 @@ Definition parse_alloc_result (bs : bytes) : Result Proof :=
    prefixes), and GROW * 48 = 24 * 8, plus the bytes copied; k: the two bounded pre-allocations, the trace-query
    vector, one error message *)
 Definition alloc_bound (input_len : Z) : Z :=
-  25 * input_len + (prealloc 255 SZ_2VEC + MAX_PREALLOC + 2 * SZ_2VEC + ERR_MSG).
+  25 * input_len + (MAX_PREALLOC + MAX_PREALLOC + 2 * SZ_2VEC + ERR_MSG).
